@@ -935,6 +935,11 @@ ANIwriteann(int32       ann_id, /* IN: annotation id */
     /* Clear error stack */
     HEclear();
 
+    /* an annotation has at least one character: a zero-length write cannot be
+       carried out and must not leave an element behind */
+    if (ann == NULL || ann_len <= 0)
+        HGOTO_ERROR(DFE_ARGS, FAIL);
+
     /* get annotation record */
     ann_node = HAatom_object(ann_id);
     if (NULL == ann_node)
